@@ -53,6 +53,7 @@ class _NoInline(Domain):
 
 
 PEELED = set()
+PAIR_MODE = {}      # walks that de-duplicate the yielded (owner, type) pairs
 
 
 def find_walk(f, allow_seed_only=False):
@@ -167,8 +168,22 @@ def analyse_walk(program, rep, f, world):
     rep.count('paths', len(exits))
     viol = {}       # rule -> (node, why, path)
 
+    # an opt-in flag (a parameter whose default is False / None): the walk
+    # is complete for every call that does not set it
+    a_ = f.node.args
+    names_ = [x.arg for x in a_.args]
+    dflt_ = dict(zip(reversed(names_), reversed(a_.defaults)))
+    dflt_.update({k.arg: d for k, d in zip(a_.kwonlyargs, a_.kw_defaults)
+                  if d is not None})
+    opt_in = {n_ for n_, d in dflt_.items() if isinstance(d, ast.Constant)
+              and d.value in (False, None)}
+
     def _breaks(stmts):
         for s_ in stmts:
+            if isinstance(s_, ast.If) and isinstance(s_.test, ast.Name) \
+                    and s_.test.id in opt_in and not s_.orelse and len(
+                        s_.body) == 1 and isinstance(s_.body[0], ast.Break):
+                continue
             if isinstance(s_, ast.Break):
                 return s_
             if isinstance(s_, (ast.For, ast.While, ast.FunctionDef)):
@@ -205,6 +220,25 @@ def analyse_walk(program, rep, f, world):
                 f'{"" if e.extra else "not "}({e.sym.text})'
                 for e in tr if e.kind == 'cond'][:10])
 
+    # pre-scan: does the walk de-duplicate the yielded (owner, type) pairs?
+    PAIR_MODE.pop(f.qualname, None)
+    for ex in exits:
+        tr_ = ex.state.trace
+        for k_, x in enumerate(tr_):
+            if x.kind == 'cond' and x.extra is False and isinstance(
+                    x.sym.node, ast.Compare) and isinstance(
+                        x.sym.node.ops[0], ast.In) and isinstance(
+                            x.sym.node.left, ast.Tuple) and len(
+                                x.sym.node.left.elts) == 2 and isinstance(
+                                    x.sym.node.comparators[0], ast.Name):
+                key_ = norm(x.sym.node.left)
+                if any(y.kind == 'call' and isinstance(
+                        y.sym.node, ast.Call) and isinstance(
+                            y.sym.node.func, ast.Attribute)
+                        and y.sym.node.func.attr == 'add' and y.sym.node.args
+                        and norm(y.sym.node.args[0]) == key_
+                        for y in tr_[k_:k_ + 4]):
+                    PAIR_MODE[f.qualname] = True
     for ex in exits:
         tr = ex.state.trace
         # split into iterations
@@ -285,6 +319,37 @@ def analyse_walk(program, rep, f, world):
             extended = False
             first_table_cond = None
             reached_effect = False
+            # alternative de-duplication: every yielded pair is tested
+            # against / recorded in a set of (owner, type) keys - the key must
+            # name the visited type, else distinct components of one owner
+            # are suppressed
+            alt = None
+            yields_ = [x for x in evs if x.kind == 'yield']
+            pair_keys = [x for x in evs if x.kind == 'cond' and isinstance(
+                x.sym.node, ast.Compare) and isinstance(
+                    x.sym.node.ops[0], ast.In) and x.extra is False
+                and isinstance(x.sym.node.comparators[0], ast.Name)
+                and not any(w_ in x.sym.text for w_ in TABLE_WORDS)
+                and norm(x.sym.node.left) != popped]
+            if has_effect and yields_ and pair_keys:
+                key = pair_keys[-1].sym.node.left
+                names_type = any(norm(k_) == popped for k_ in (
+                    key.elts if isinstance(key, ast.Tuple) else [key]))
+                recorded = any(
+                    x.kind == 'call' and isinstance(x.sym.node, ast.Call)
+                    and isinstance(x.sym.node.func, ast.Attribute)
+                    and x.sym.node.func.attr == 'add' and x.sym.node.args
+                    and norm(x.sym.node.args[0]) == norm(key) for x in evs)
+                if names_type and recorded and isinstance(
+                        key, ast.Tuple) and len(key.elts) == 2:
+                    alt = 'ok'
+                    PAIR_MODE[f.qualname] = True
+                else:
+                    alt = ('yielded pairs are de-duplicated by the key '
+                           f'{norm(key)}, which does not name the visited '
+                           'type (or is not recorded): a second component of '
+                           'the same owner (another type of the queried '
+                           'family) is suppressed')
             for e in evs:
                 if e.kind == 'cond':
                     n = e.sym.node
@@ -319,6 +384,13 @@ def analyse_walk(program, rep, f, world):
                     if e.kind == 'yield' or any(
                             w_ in e.sym.text for w_ in TABLE_WORDS):
                         reached_effect = True
+                        if alt == 'ok' or (alt is None and PAIR_MODE.get(
+                                f.qualname) and not yields_):
+                            okc['once'] += 1
+                            continue
+                        if alt is not None:
+                            flag('once', e.node, alt, tr)
+                            continue
                         if has_effect and not (visited_false and visited_added):
                             flag('once', e.node, 'the per-visit effect of the '
                                  'walk (yielding the components of the popped '
@@ -429,48 +501,16 @@ def _self_writes(m):
 
 def check_query_memo(program, rep):
     """A query may only remember an answer in an attribute of the world if
-    every method that changes the tables forgets it again."""
-    from .util import methods_of, called_only_from
+    every method that changes the tables it reads forgets it again (and, for
+    answers that depend on the subclass closure, forgets the supertypes'
+    answers too)."""
+    from .util import check_memo_invalidation
     world = program.cls('World')
-    meths = methods_of(program, world)
-    qset, _ = called_only_from(meths, set(QUERIES) & set(meths))
-    qset -= {'process'}
-    mutators = {}
-    for name, ms in meths.items():
-        if name in qset or name == '__init__':
-            continue
-        for m in ms:
-            wr = _self_writes(m)
-            if any(t in wr for t in WORLD_TABLES):
-                mutators[name] = (m, wr)
-    n = 0
-    for name in sorted(qset):
-        for m in meths.get(name, []):
-            n += 1
-            wr = _self_writes(m)
-            bad = None
-            for attr, node in wr.items():
-                if attr in WORLD_TABLES:
-                    bad = (node, f'the query {m.qualname} modifies the table '
-                           f'self.{attr}')
-                    break
-                missing = sorted(k for k, (mm, w2) in mutators.items()
-                                 if attr not in w2)
-                if missing:
-                    bad = (node, f'the query {m.qualname} remembers answers '
-                           f'in self.{attr}, but {", ".join(missing)} '
-                           'change(s) the tables without forgetting them: a '
-                           'later query is answered from the memo - an object '
-                           'of exactly the queried type added meanwhile is '
-                           'not preferred (or a removed one is still '
-                           'reported)')
-                    break
-            rep.check(bad is None, 'C06.memo', m.where,
-                      bad[0] if bad else m.node.name,
-                      'the query keeps no state of its own (or every table '
-                      'mutator invalidates it)', bad[1] if bad else '',
-                      line=getattr(bad[0], 'lineno', None) if bad
-                      else m.node.lineno)
+    n = check_memo_invalidation(
+        program, rep, 'C06.memo', world, QUERIES + ('processors', 'entities'),
+        WORLD_TABLES + ('_dead_entities',),
+        'a later query is answered from the memo - an object added meanwhile '
+        'is not reported (or a removed one still is)', closure_keyed=True)
     rep.floor('C06.memo', 'query methods of World', n, 5)
 
 
